@@ -264,3 +264,22 @@ Proof. intros H. cbn [cmd_help_enum]. apply find_cmd_none in H. rewrite H. refle
 Theorem help_enum_leaf fuel parent cmds name args c : find_cmd cmds name = Some c -> c_sub c = None ->
   cmd_help_enum (S fuel) parent cmds name args = Some (Some (own_help_hops parent c)).
 Proof. intros H Hs. cbn [cmd_help_enum]. rewrite H, Hs. reflexivity. Qed.
+
+(* ---- integer fields: whatever is accepted is in the type's range, with the sign only where the type has one *)
+Lemma conv_int_range sg bits s v : conv (TInt sg bits) s = Some v ->
+  exists neg n, v = VInt neg n /\
+    (if neg then sg = true /\ 0 < n /\ n <= 2 ^ (bits - 1) else n < (if sg then 2 ^ (bits - 1) else 2 ^ bits)).
+Proof.
+  unfold conv.
+  set (p := match s with 43 :: r => (false, r) | 45 :: r => if sg then (true, r) else (false, s) | _ => (false, s) end).
+  assert (Hp : fst p = true -> sg = true).
+  { subst p. destruct s as [|b r]; [discriminate|]. destruct (N.eq_dec b 43) as [->|]; [discriminate|]. destruct (N.eq_dec b 45) as [->|].
+    - destruct sg; [reflexivity|discriminate].
+    - destruct b as [|q]; [discriminate|]. do 6 (destruct q as [q|q|]; try discriminate); congruence. }
+  destruct p as [neg ds]. cbn [fst] in Hp. destruct ds as [|d0 dr]; [discriminate|]. destruct (parse_dec 0 (d0 :: dr)) as [n|]; [|discriminate].
+  destruct neg.
+  - destruct (n <=? 2 ^ (bits - 1)) eqn:E; [|discriminate]. intros [= <-]. destruct (n =? 0) eqn:E0; cbn [negb].
+    + exists false, n. split; [reflexivity|]. assert (n = 0) by lia. subst. destruct sg; apply N.neq_0_lt_0, N.pow_nonzero; discriminate.
+    + exists true, n. split; [reflexivity|]. split; [auto|lia].
+  - destruct (n <? (if sg then 2 ^ (bits - 1) else 2 ^ bits)) eqn:E; [|discriminate]. intros [= <-]. exists false, n. split; [reflexivity|lia].
+Qed.
